@@ -12,13 +12,17 @@
 EXTENDS Kernel, Json, IOUtils, TLCExt
 
 Traces == ndJsonDeserialize(IOEnv.TRACE_FILE)
-VARIABLES tid, l, rej, viol
-tvars == <<tid, l, rej, viol>>
+VARIABLES tid, l, rej, viol,
+          gq,     \* ghost: the queue of one-shot tasks as the CALLS alone determine it (time, then order of installation);
+                  \* never bound to anything the implementation logs about its heap
+          gdue    \* ghost: the time of each one-shot task's last installation (what resume_task re-installs at)
+tvars == <<tid, l, rej, viol, gq, gdue>>
 T == Traces[tid].evs
 ToSet(s) == {s[i] : i \in 1..Len(s)}
 
 TInit ==
     /\ tid \in 1..Len(Traces) /\ l = 1 /\ rej = 0 /\ viol = {}
+    /\ gq = <<>> /\ gdue = [k \in K |-> NONE]
     /\ now = 0 /\ q = <<>> /\ sched = [k \in K |-> FALSE] /\ due = [k \in K |-> NONE]
     /\ instAt = [k \in K |-> NONE]
     /\ defq = <<>> /\ out = <<>> /\ called = <<>> /\ submitted = <<>> /\ calledLog = <<>>
@@ -33,6 +37,7 @@ Act(e) ==
       [] e.op = "resume"  -> Resume(e.k)
       [] e.op = "defer"   -> Defer(e.k)
       [] e.op = "run"     -> Run(e.a)
+      [] e.op = "tick"    -> Tick(e.a)
       [] OTHER            -> FALSE
 
 \* the projection logged by the harness after the step
@@ -48,6 +53,36 @@ A_FifoAmongEquals ==
     \A i, j \in 1..Len(out') :
         (i < j /\ out'[i][2] = out'[j][2] /\ out'[i][1] \notin Rec /\ out'[j][1] \notin Rec)
         => \E a, b \in 1..Len(q) : a < b /\ q[a][2] = out'[i][1] /\ q[b][2] = out'[j][1]
+
+\* ---- the ghost queue: order of firing judged against the order of the calls, not against the implementation's heap ----
+Fired(e) == {e.st.out[i][1] : i \in 1..Len(e.st.out)}
+GhostNext(e) ==
+    CASE e.op = "at" /\ e.k \notin Rec     -> /\ gq' = Insert(Remove(gq, e.k), e.a, e.k) /\ gdue' = [gdue EXCEPT ![e.k] = e.a]
+      [] e.op = "after" /\ e.k \notin Rec  -> /\ gq' = Insert(Remove(gq, e.k), now + e.a, e.k)
+                                             /\ gdue' = [gdue EXCEPT ![e.k] = now + e.a]
+      [] e.op = "suspend" /\ e.k \notin Rec -> gq' = Remove(gq, e.k) /\ UNCHANGED gdue
+      [] e.op = "resume" /\ e.k \notin Rec /\ gdue[e.k] # NONE
+                                           -> gq' = Insert(Remove(gq, e.k), gdue[e.k], e.k) /\ UNCHANGED gdue
+      [] e.op = "run"                      -> gq' = SelectSeq(gq, LAMBDA x : x[2] \notin Fired(e)) /\ UNCHANGED gdue
+      [] OTHER                             -> UNCHANGED <<gq, gdue>>
+GPos(k) == CHOOSE j \in 1..Len(gq) : gq[j][2] = k
+OneShotFired(e) == SelectSeq(e.st.out, LAMBDA x : x[1] \notin Rec)
+\* a one-shot task fires only if the calls scheduled it, and not before the time the calls gave it
+G_NeverEarly(e) == \A i \in 1..Len(OneShotFired(e)) :
+                       \E j \in 1..Len(gq) : gq[j][2] = OneShotFired(e)[i][1] /\ gq[j][1] <= e.st.now
+\* tasks fired in one pass fire in the order of their times, and among equal times in the order the calls installed them
+G_FireOrder(e) == LET o == OneShotFired(e) IN
+                  \A i, j \in 1..Len(o) : (i < j /\ InQ(gq, o[i][1]) /\ InQ(gq, o[j][1]) /\ o[i][1] # o[j][1])
+                                               => GPos(o[i][1]) < GPos(o[j][1])
+\* unless something raised, nothing the calls made due is left behind by a pass
+G_NothingDueLeft(e) ==
+    (e.op = "run" /\ (\A i \in 1..Len(e.st.out) : e.st.out[i][1] \notin TaskRaises)
+                  /\ (\A i \in 1..Len(e.st.called) : e.st.called[i] \notin FnRaises))
+        => \A j \in 1..Len(gq) : gq[j][1] <= e.st.now => gq[j][2] \in Fired(e)
+GhostFailing(e) ==
+    (IF G_NeverEarly(e) THEN {} ELSE {"NeverEarly"}) \cup
+    (IF G_FireOrder(e) THEN {} ELSE {"FifoAmongEquals"}) \cup
+    (IF G_NothingDueLeft(e) THEN {} ELSE {"NothingDueLeftUnlessRaise"})
 
 Failing ==
     (IF Sorted' THEN {} ELSE {"Sorted"}) \cup
@@ -68,13 +103,14 @@ Step ==
     /\ LET e == T[l] IN
         /\ Bind(e)
         /\ rej' = IF rej = 0 /\ ~ENABLED (Act(e) /\ Bind(e)) THEN l ELSE rej
-        /\ viol' = viol \cup {<<m, l>> : m \in {x \in Failing : \A v \in viol : v[1] # x}}   \* first failing step per monitor
+        /\ viol' = viol \cup {<<m, l>> : m \in {x \in Failing \cup GhostFailing(e) : \A v \in viol : v[1] # x}}   \* first failing step per monitor
+        /\ GhostNext(e)
     /\ l' = l + 1 /\ UNCHANGED tid
 
 Done ==
     /\ l = Len(T) + 1
     /\ PrintT(<<"@@", [tid |-> Traces[tid].tid, rej |-> rej, viol |-> viol]>>)
-    /\ l' = l + 1 /\ UNCHANGED <<vars, tid, rej, viol>>
+    /\ l' = l + 1 /\ UNCHANGED <<vars, tid, rej, viol, gq, gdue>>
 
 TNext == Step \/ Done
 TSpec == TInit /\ [][TNext]_<<vars, tvars>>
